@@ -2,8 +2,8 @@ package schema
 
 import (
 	"encoding/json"
-	"os"
 	"fmt"
+	"os"
 	"sort"
 	"testing"
 
